@@ -24,11 +24,11 @@ The Python iterators are generators that mutate `context.item`/`context.axis` ar
 "axis already set => test the item itself" rule of `iter_children_or_self` /
 `iter_matching_nodes` is modelled structurally in `EPV/Model/Paths.lean` (`evalStep`).
 
-The model mirrors the tree *with the `fix:` commits of branch fix-c01* (see docs/C01.md):
-siblings/preceding of attribute and namespace nodes, following of text/comment/PI nodes and of
-document-level siblings.  Two defects are pinned by the repository's own tests and therefore
-still present (known findings F01b, F01c): `iter_followings` yields nothing for attribute /
-namespace context nodes and `iter_attributes` yields an attribute context node itself.
+The model mirrors /repo with the `fix:` commits of branches fix-c01, fix-c01-2 and fix-c01-3 (see
+docs/C01.md).  Two helpers are pinned by the repository's own tests (`iter_followings` yields nothing
+for attribute / namespace context nodes, `iter_attributes` yields an attribute context node itself);
+the axis methods that call them handle these context kinds themselves (`followingAxis`,
+`attributeAxis`).
 -/
 namespace EPV.XP
 
@@ -145,8 +145,8 @@ def topOf (m : Mode) (a : Arr) (n : Nat) : Nat := (ancChain m a n n).getLast?.ge
 /-- `iter_self` (384-390) -/
 def iterSelf (n : Nat) : List Nat := [n]
 
-/-- `iter_attributes` (392-409).  The first branch (attribute context item yields itself) is
-finding F01c. -/
+/-- `iter_attributes` (392-409).  The first branch (attribute context item yields itself) is pinned by
+the suite; the attribute axis does not reach it (`attributeAxis`). -/
 def iterAttributes (a : Arr) (n : Nat) : List Nat :=
   if kd a n == .attr then [n]
   else if kd a n == .elem then attrsOf a n
@@ -213,13 +213,29 @@ def iterPreceding (m : Mode) (a : Arr) (n : Nat) : List Nat :=
 
 /-- `iter_followings` (575-593): `root.iter_descendants(with_self=False)` filtered by
 `position < item.position and item not in descendants`.  Attribute / namespace (and document)
-context items yield nothing (finding F01b for attribute and namespace nodes). -/
+context items yield nothing (pinned; see `followingAxis`). -/
 def iterFollowings (m : Mode) (a : Arr) (n : Nat) : List Nat :=
   if isAN a n || kd a n == .doc then []
   else
     let descendants := if kd a n == .elem then n :: descRange a n else []
     let top := topOf m a n
     (descRange a top).filter (fun i => decide (n < i) && !descendants.contains i)
+
+/-- `select__following_axis` (`_xpath1_axes.py`): `iter_followings()` is pinned by the suite to yield
+nothing for attribute / namespace context nodes, so the axis method itself walks the owner's
+descendants and then the owner's following nodes for these two kinds (fix F01b). -/
+def followingAxis (m : Mode) (a : Arr) (n : Nat) : List Nat :=
+  if isAN a n then
+    match par a n with
+    | some p => descRange a p ++ iterFollowings m a p
+    | none => []
+  else iterFollowings m a n
+
+/-- `select__attribute_reference_or_axis`: returns at once for an attribute context node (fix F01c;
+`iter_attributes()` itself, pinned by the suite and used by the 2.0 `attribute()` kind test under the
+self axis, still yields the attribute) -/
+def attributeAxis (a : Arr) (n : Nat) : List Nat :=
+  if kd a n == .attr then [] else iterAttributes a n
 
 /-! ### the thirteen axes -/
 inductive Axis where
@@ -244,9 +260,9 @@ def iterAxis (m : Mode) (a : Arr) : Axis → Nat → List Nat
   | .ancestorOrSelf, n => iterAncestors m a true n
   | .followingSibling, n => iterFollowingSiblings m a n
   | .precedingSibling, n => iterPrecedingSiblings m a n
-  | .following, n => iterFollowings m a n
+  | .following, n => followingAxis m a n
   | .preceding, n => iterPreceding m a n
-  | .attribute, n => iterAttributes a n
+  | .attribute, n => attributeAxis a n
   | .namespace, n => iterNamespaces a n
 
 end EPV.XP
